@@ -110,7 +110,8 @@ NODE_CLASSES = {"Node": Node, "EqNode": EqNode, "ValuelessNode": ValuelessNode,
 
 class MNode:
     __slots__ = ("uid", "cls", "value", "label", "child", "lazy", "children", "table",
-                 "group", "grid", "extra", "has_extra", "eqkey", "extra_default")
+                 "group", "grid", "extra", "has_extra", "eqkey", "extra_default", "tagged",
+                 "has_tagged")
 
     def __init__(self, uid, cls="Node"):
         self.uid = uid
@@ -127,6 +128,8 @@ class MNode:
         self.extra = UNSET
         self.has_extra = False
         self.extra_default = None      # constant default object of the added trait
+        self.tagged = UNSET            # instance trait Int(tag=True), added with add_trait
+        self.has_tagged = False
 
     def __hash__(self):
         return 7          # constant, as for the objects: same set/dict semantics
@@ -157,6 +160,8 @@ class MNode:
             names = ["uid", "value", "label", "child", "children"]
         if self.has_extra:
             names.append("extra")
+        if self.has_tagged:
+            names.append("tagged")
         return names
 
     def get(self, name):
@@ -327,8 +332,11 @@ def _step_objects(o, step):
     elif k == "meta":
         if isinstance(o, MNode) and "label" in o.traits():
             obs.append(("t", o, "label"))
-            v = o.label
             # a Str value is never followed further
+        if isinstance(o, MNode) and o.has_tagged:
+            # an instance trait that carries the metadata (added before or after
+            # the registration)
+            obs.append(("t", o, "tagged"))
     elif k == "any":
         if isinstance(o, MNode):
             for n2 in o.traits():
@@ -403,7 +411,7 @@ OP_ATTR = {"set_child": "child", "set_lazy": "lazy", "read_lazy": "lazy",
            "set_table": "table", "dict": "table", "set_group": "group", "set": "group",
            "set_grid": "grid", "grid_inner": "grid", "grid_outer": "grid",
            "set_extra": "extra", "add_trait": "extra", "read_extra": "extra", "read": None,
-           "del_attr": None, "redefine": None}
+           "del_attr": None, "redefine": None, "add_tagged": "tagged"}
 
 
 def gen_detached_op(r, npool):
@@ -429,7 +437,7 @@ def inflight_keys(world, op):
             return {("c", id(v[op["row"] % len(v)]))} if v else set()
         return {("c", id(v))}
     keys = {("t", id(m), attr)}
-    if k == "add_trait":
+    if k in ("add_trait", "add_tagged"):
         keys.add(("t", id(m), "trait_added"))
     return keys
 
@@ -507,6 +515,7 @@ class World:
         for uid, (n, m) in self.by_uid.items():
             c = new[uid]
             c.value, c.label, c.has_extra = m.value, m.label, m.has_extra
+            c.tagged, c.has_tagged = m.tagged, m.has_tagged
             c.child, c.lazy, c.extra = mp(m.child), mp(m.lazy), mp(m.extra)
             c.extra_default = mp(m.extra_default)
             if m.children is not UNSET:
@@ -615,6 +624,15 @@ class World:
             return None
         if "fresh" in ref:
             n, m = self.new_node(ref.get("cls", self.default_cls))
+            if ref.get("tagged"):
+                # the new object gets an instance trait carrying metadata BEFORE it
+                # is put anywhere
+                m.has_tagged = True
+                if self.sut_on:
+                    r, e = sut(n.add_trait, "tagged", Int(tag=True))
+                    if e is not None:
+                        raise Violation("graph.op-raised", "add_trait on a fresh node raised %r"
+                                        % (e,), None)
             return m.uid
         return self.mnodes[self.idx(ref["n"])].uid
 
@@ -674,13 +692,13 @@ class World:
     def op_probe(self, op, step):
         n, m = self._target(op)
         name = op.get("name", "value")
-        if name not in m.traits() or name not in ("value", "label"):
+        if name not in m.traits() or name not in ("value", "label", "tagged"):
             return []
         v = self.fresh_value()
-        new = v if name == "value" else "s%d" % v
+        new = v if name != "label" else "s%d" % v
         old = m.get(name)
         if old is UNSET:
-            old = 0 if name == "value" else ""
+            old = 0 if name != "label" else ""
         setattr(m, name, new)
         if self.sut_on:
             self._do(step, "N%d.%s = %r" % (m.uid, name, new), setattr, n, name, new)
@@ -755,6 +773,18 @@ class World:
             tdef = Instance(NodeBase) if duid is None else Any(self.node(duid))
             self._do(step, "add_trait", n.add_trait, "extra", tdef)
         return [Change("trait_added", mobj=m, obj=n, name="extra", changed=True)]
+
+    def op_add_tagged(self, op, step):
+        """``node.add_trait("tagged", Int(tag=True))``: an instance trait that
+        carries the metadata ``+tag`` filters on."""
+        n, m = self._target(op)
+        if m.has_tagged:
+            return []
+        m.has_tagged = True
+        m.tagged = UNSET
+        if self.sut_on:
+            self._do(step, "add_trait", n.add_trait, "tagged", Int(tag=True))
+        return [Change("trait_added", mobj=m, obj=n, name="tagged", changed=True)]
 
     def op_read_extra(self, op, step):
         """First read materialises the (constant) default: silent for handlers,
@@ -1185,6 +1215,10 @@ def gen_ref(r, npool, fresh_rate=0.15, none_rate=0.0):
     if x < none_rate:
         return {"none": 1}
     if x < none_rate + fresh_rate:
+        if r.random() < 0.2:
+            # a new object that got an instance trait with metadata before it is
+            # put anywhere
+            return {"fresh": 1, "tagged": 1}
         return {"fresh": 1}
     return {"n": r.randrange(max(npool, 1) + 2)}
 
